@@ -16,7 +16,7 @@ for a in $areas; do case "$a" in
   io) tests="$tests tests/io";; atoms) tests="$tests tests/atoms tests/absorption";; metadata) tests="$tests tests/metadata tests/io/cif_test.py";;
   *) tests="$tests tests";; esac; done
 tests=$(echo $tests | tr ' ' '\n' | sort -u | tr '\n' ' ')
-run_tests() { PYTHONPATH="$wt/src" /venv/bin/python -m pytest -q -p no:cacheprovider --continue-on-collection-errors -p no:randomly -n 6 $tests 2>&1 | tail -1 | sed 's/ in [0-9.]*s.*//'; }
+run_tests() { OMP_NUM_THREADS=1 OPENBLAS_NUM_THREADS=1 MKL_NUM_THREADS=1 PYTHONPATH="$wt/src" /venv/bin/python -m pytest -q -p no:cacheprovider --continue-on-collection-errors -p no:randomly -n 6 $tests 2>&1 | tail -1 | sed 's/ in [0-9.]*s.*//'; }
 base_demo=$(PYTHONPATH="$wt/src" /venv/bin/python "$dir/demo.py" >/dev/null 2>&1; echo $?)
 base_tests=$(run_tests)
 git apply "$dir/patch.diff" 2>/dev/null || { echo "$(basename $dir): PATCH DOES NOT APPLY to HEAD"; exit 1; }
